@@ -202,6 +202,7 @@ func (h *rollHist) Events() []string {
 func (h *rollHist) Apply(ev string) {
 	h.hist = append(h.hist, ev)
 	x := h.x
+	x.Hooks.Reset() // (one world per search: do not let the recorded hook calls pile up)
 	switch {
 	case strings.HasPrefix(ev, "sync!rev-write-"):
 		nth, seen := int(ev[len("sync!rev-write-")]-'0'), 0
